@@ -6,7 +6,7 @@
       attempt := <name> ( manerr <cls> | man <id> <dataLen> <nlayers> {<dig> <size>}* <hascfg 0|1> [<dig> <size>] )
                  <nplans> {plan}* <nsteps> {step}*
       plan    := pfail | plist <n> {<dig> <start> <len>}*
-      step    := cancel | rel <k> fail <cls> | rel <k> body <npieces> {<hex>}* <eof|err>
+      step    := cancel | timeout | rel <k> fail <cls> | rel <k> body <npieces> {<hex>}* <eof|err>
       -> per attempt "<outcome> n=<waiting requests before each step> link=<manifest id|none> files=<hex,...> stage=<hex,...>", joined by " | "
     push <nlayers> {postErr|cached|putOk|putErr}* <nsched> {k}* <manifestOk 0|1>
       -> "<events> res=<ok|err>" | bad-schedule
@@ -32,12 +32,14 @@ def pCls : TP ErrClass := do
   | "digest" => pure .digest
   | "incomplete" => pure .incomplete
   | "invalidManifest" => pure .invalidManifest
+  | "deadline" => pure .deadline
   | _ => failure
 
 def showCls : ErrClass → String
   | .status4xx => "status4xx" | .status5xx => "status5xx" | .notFound => "notFound"
   | .transport => "transport" | .canceled => "canceled" | .eof => "eof" | .readErr => "readErr"
   | .digest => "digest" | .incomplete => "incomplete" | .invalidManifest => "invalidManifest"
+  | .deadline => "deadline"
 
 def showOutcome : Outcome → String
   | .ok => "ok"
@@ -82,6 +84,7 @@ def pEnd : TP BodyEnd := do
 def pStep : TP Step := do
   match (← tok) with
   | "cancel" => pure .cancel
+  | "timeout" => pure .timeout
   | "rel" =>
     let k ← nat
     match (← tok) with
